@@ -66,7 +66,8 @@ LEVEL_NOTE = ("trusted: OS/subprocess/tempfile, fake tools, FASTA/Newick parsers
 TECHNIQUE = "Lean 4 proof (invariant over all histories of a state machine) + regenerated guard table + correspondence"
 
 WRAPPERS = ["base", "local", "clustalo", "muscle3", "muscle5", "mafft", "tantan"]
-TOOLS = ["ok", "reorder", "garbage_empty", "garbage_ragged", "garbage_missing", "garbage_length", "garbage_swap", "garbage_tree",
+TOOLS = ["ok", "reorder", "dup_records", "garbage_empty", "garbage_ragged", "garbage_missing", "garbage_length", "garbage_swap",
+         "garbage_extra", "garbage_header", "garbage_tree",
          "bigout", "exit3",
          "sigkill", "hang", "hang_ignore_term", "missing", "isdir", "nulbyte"]
 HANGS = ("hang", "hang_ignore_term")      # never exit on their own; the second one also ignores SIGTERM
@@ -482,6 +483,9 @@ class _Session:
         self.sequences = None
         self.stub_child = "none"
         self.force_finish = False     # watchdog: unblock a join() of the stub that would wait forever
+        self.run_divergence = False   # set for `divergence` cases: really call a join() that must block
+        self.frozen = None
+        self.last_exc = None          # class name of the last exception a call raised
         self._spell_i = nseq + len(tool) + len(wrapper)      # rotates the spelling of scalar / array arguments (deterministic)
 
     # -- construction
@@ -503,12 +507,16 @@ class _Session:
                 seqs.append(GeneralSequence(alph, [f"s{c}" for c in codes]))
             return seqs
         pools = {"prot": "ACDEFGHIKLMNPQRSTVWY", "nuc": "ACGT"}
-        pool = pools[self.seqkind]
+        pool = pools["prot" if self.seqkind.startswith("prot") else self.seqkind]
         seqs = []
         for i in range(self.nseq):
             n = 3 + (i * 2 + self.nseq) % 4
+            if self.seqkind == "protlong":
+                n = 90 + 57 * i                         # longer than a FASTA line (80) and than a pipe-friendly size
+            if self.seqkind == "protempty" and i == 1:
+                n = 0                                   # an empty sequence is a legal Sequence
             text = "".join(pool[(i * 7 + j * (i + 1) + j * j + self.nseq) % len(pool)] for j in range(n))
-            if self.seqkind == "prot":
+            if self.seqkind.startswith("prot"):
                 seqs.append(ProteinSequence(text))
             else:
                 seqs.append(NucleotideSequence(text))
@@ -578,11 +586,17 @@ class _Session:
             self.app.set_arguments(["--plain"])
             return
         self.sequences = self._sequences()
+        matrix = None
+        if self.seqkind == "protmat":
+            import numpy as np
+            from biotite.sequence import ProteinSequence
+            from biotite.sequence.align import SubstitutionMatrix
+            alph = ProteinSequence.alphabet
+            matrix = SubstitutionMatrix(alph, alph, np.eye(len(alph), dtype=np.int32) * 7 - 3)
         if self.wrapper == "tantan":
             from biotite.application.tantan import TantanApp
-            self.app = probe(TantanApp)(self.sequences, bin_path=bin_path)
+            self.app = probe(TantanApp)(self.sequences, matrix=matrix, bin_path=bin_path)
             return
-        matrix = None
         if self.seqkind.startswith("generic"):
             import numpy as np
             from biotite.sequence.align import SubstitutionMatrix
@@ -590,7 +604,7 @@ class _Session:
             matrix = SubstitutionMatrix(alph, alph, np.eye(len(alph), dtype=np.int32) * 5 - 1)
         if self.wrapper == "clustalo":
             from biotite.application.clustalo import ClustalOmegaApp
-            self.app = probe(ClustalOmegaApp)(self.sequences, bin_path)
+            self.app = probe(ClustalOmegaApp)(self.sequences, bin_path, matrix)     # (documented: the matrix is ignored)
         elif self.wrapper == "muscle3":
             from biotite.application.muscle import MuscleApp
             self.app = probe(MuscleApp)(self.sequences, bin_path, matrix)
@@ -763,7 +777,7 @@ class _Session:
             return app.set_thread_number(self.spell(1))
         return getattr(app, name)()
 
-    def _join_watched(self, timeout, limit):
+    def _join_watched(self, timeout, limit, freeze=False):
         """app.join(timeout) in a thread with a hard limit: a join that never returns is reported, not waited for."""
         box = {}
 
@@ -778,6 +792,8 @@ class _Session:
         th.start()
         th.join(limit)
         if th.is_alive():
+            if freeze:
+                self.frozen = self.observe()         # what the world looks like while the call is (rightly) blocked
             # unblock it: let the stub finish, open the gate, kill the child; then give up on the thread
             self.force_finish = True
             self.release()
@@ -819,17 +835,23 @@ class _Session:
                 return "ok"
             if w[0] == "join":
                 in_join = True
-                if w[1] == "-":
+                unbounded = w[1] == "-" or (w[1] == "inf" and self.wrapper == "base")
+                if unbounded:
                     if app._state.name == "RUNNING" and self.tool in HANGS:
-                        return "unmodelled"          # join() without timeout on a program that never exits: diverges
+                        # join() without (effective) timeout on a program that never exits: the model says "diverges".
+                        # In a `divergence` case (this is its last op) the real call is made and must indeed block.
+                        if not self.run_divergence:
+                            return "unmodelled"
+                        r = self._join_watched(None if w[1] == "-" else float("inf"), 0.6, freeze=True)
+                        return "unmodelled" if r == "hang-join" else r
                     running = app._state.name == "RUNNING" and not self.released()
                     if running:
                         t = threading.Timer(0.02, self.release)
                         self.timers.append(t)
                         t.start()
-                    return self._join_watched(None, 10.0)
-                timeout = {"t": TIMEOUT, "5": 5.0, "0": 0, "0.0": 0.0}[w[1]]
-                if self._spell_i % 3 == 0:            # every third join passes the same timeout as a NumPy scalar
+                    return self._join_watched(None if w[1] == "-" else float("inf"), 10.0)
+                timeout = {"t": TIMEOUT, "5": 5.0, "0": 0, "0.0": 0.0, "-1": -1, "inf": float("inf")}[w[1]]
+                if self._spell_i % 3 == 0 and w[1] != "inf":            # every third join passes the same timeout as a NumPy scalar
                     timeout = self.spell(timeout, timeout=True)
                 self._spell_i += 1
                 return self._join_watched(timeout, 12.0 if w[1] == "5" else 2.0)
@@ -890,9 +912,12 @@ class _Session:
         except SubprocessError:
             return "ERR:SubprocessError"
         except Exception as e:  # noqa: BLE001
+            self.last_exc = type(e).__name__
             # by class *name*: Application.join raises biotite's TimeoutError, LocalApp.join the builtin one (see notes)
             if isinstance(e, AppTimeout) or type(e).__name__ == "TimeoutError":
                 return "ERR:TimeoutError"
+            if in_join and isinstance(e, OverflowError):
+                return "ERR:OverflowError"       # `communicate(timeout=inf)`: the argument is refused, nothing has happened
             if in_join:
                 return "ERR:EvalFailure"     # which class a parser raises on garbage is not part of the property
             return "ERR:" + type(e).__name__
@@ -1177,6 +1202,11 @@ def _web_cases(rng, n, maxlen):
             out.append(["newweb %s %d ok" % (obey, k), "start", "join 0"])
             out.append(["newweb %s %d ok" % (obey, k), "start", "state", "cancel"])
         out.append(["newweb %s 9 ok" % obey, "start", "join 7", "state"])
+        # far from the small numbers: many polls until READY, timeouts much larger / smaller than the run (the model's loop fuel)
+        out.append(["newweb %s 40 ok" % obey, "start", "join -", "call get_alignments"])
+        out.append(["newweb %s 3 ok" % obey, "start", "join 1000", "state"])
+        out.append(["newweb %s 25 ok" % obey, "start", "join 60", "state"])
+        out.append(["newweb %s 0 ok" % obey, "start", "join 0", "state"])
         out.append(["newweb %s 2 toolarge" % obey, "start", "start", "cancel"])
         out.append(["newweb %s 1 ok" % obey, "contact", "start", "clock 3", "start"])
         out.append(["newweb %s 1 ok" % obey, "request", "clock 3", "start", "cancel"])
@@ -1640,6 +1670,33 @@ def _oracle_api(case):
             left = sb.leftovers()
             if left:
                 v.append(("C20/api/muscle-trees/leak", str(left)))
+        elif what == "gap-shapes":
+            # set_gap_penalty outside "a negative number or a pair of them": fractions are forwarded with one decimal;
+            # values of the wrong shape / type are refused (ValueError / TypeError / IndexError) and change nothing
+            import numpy as np
+            from biotite.application.muscle import MuscleApp
+            app = MuscleApp(_api_sequences("prot", 3), bin_of("ok"))
+            app.set_gap_penalty((-2.5, -0.5))
+            before = {k: repr(val) for k, val in vars(app).items()}
+            for bad in ((-1.0,), (), "x", None, np.array([-1.0, -1.0]), {"open": -1}, (-1.0, "y"), (1.0, -1.0), 3.5):
+                try:
+                    app.set_gap_penalty(bad)
+                    v.append((f"C20/api/gap-shapes/accepted/{type(bad).__name__}", f"set_gap_penalty({bad!r}) was accepted"))
+                except (ValueError, TypeError, IndexError, KeyError):
+                    pass
+                after = {k: repr(val) for k, val in vars(app).items()}
+                if after != before:
+                    v.append((f"C20/api/gap-shapes/refusal-side-effect/{type(bad).__name__}",
+                              f"set_gap_penalty({bad!r}) changed {[k for k in after if after[k] != before.get(k)]}"))
+                    before = after
+            app.start()
+            app.join(timeout=20)
+            args = next((e["args"] for e in sb.events() if e.get("event") == "started"), [])
+            if not ("-gapopen" in args and args[args.index("-gapopen") + 1] == "-2.5" and args[args.index("-gapextend") + 1] == "-0.5"):
+                v.append(("C20/api/gap-shapes/fraction-not-forwarded", str(args)))
+            left = sb.leftovers()
+            if left:
+                v.append(("C20/api/gap-shapes/leak", str(left)))
         elif what == "map-matrix":
             import numpy as np
             from biotite.application.util import map_matrix
@@ -1691,7 +1748,8 @@ def _api_cases(quick):
         out.append({"kind": "api", "what": "default-bin", "wrapper": wr})
     out += [{"kind": "api", "what": "version"}, {"kind": "api", "what": "forwarding", "tool": "ok"},
             {"kind": "api", "what": "forwarding", "tool": "exit3"}, {"kind": "api", "what": "muscle-trees", "n": 4},
-            {"kind": "api", "what": "muscle-trees", "n": 3}, {"kind": "api", "what": "map-matrix"}]
+            {"kind": "api", "what": "muscle-trees", "n": 3}, {"kind": "api", "what": "map-matrix"},
+            {"kind": "api", "what": "gap-shapes"}]
     return out
 
 
@@ -1714,6 +1772,7 @@ def execute(case):
     if w[0] != "new":
         return ["bad-op"] * len(ops), []
     sess = _Session(w[1], w[2], int(w[3]), w[4])
+    sess.run_divergence = case.get("kind") == "divergence"
     lines, trace = [], []
     try:
         with warnings.catch_warnings():
@@ -1736,10 +1795,12 @@ def execute(case):
                 released_before = sess.released()
                 is_call = line.split()[0] in ("call", "callbad", "setgap")
                 snap_before = sess.snapshot()
+                sess.last_exc = None
                 res = sess.op(line)
-                after = sess.observe()
-                extra = {"released_before": released_before}
-                if (is_call and res.startswith("ERR:")) or res == "ERR:AppStateError":
+                after = sess.frozen or sess.observe()
+                sess.frozen = None
+                extra = {"released_before": released_before, "exc": sess.last_exc}
+                if (is_call and res.startswith("ERR:")) or res in ("ERR:AppStateError", "ERR:OverflowError"):
                     snap_after = sess.snapshot()
                     extra["attrs_changed"] = sorted(k for k in set(snap_before) | set(snap_after)
                                                     if snap_before.get(k, "<absent>") != snap_after.get(k, "<absent>"))
@@ -1904,6 +1965,18 @@ def _oracle(case):
             v.append((f"C20/map_sequence/legal-alphabet-rejected/{k}", f"`{case['ops'][0]}` -> {r0}: an alphabet of {k} symbols fits the amino-acid alphabet"))
         elif k > len(PROTEIN_LETTERS) and r0 != "ERR:TypeError":
             v.append((f"C20/map_sequence/oversized-alphabet-accepted/{k}", f"`{case['ops'][0]}` -> {r0}"))
+    # construction: documented refusals only (launch error of MUSCLE's version probe, < 2 sequences, exotic types without support)
+    r0 = trace[0]["result"]
+    if r0 != "ok":
+        legit = ((wrapper in ("muscle3", "muscle5") and tool in LAUNCH_FAILURE and r0 == "ERR:" + LAUNCH_FAILURE[tool])
+                 or (wrapper in ("clustalo", "muscle3", "muscle5", "mafft") and nseq < 2 and r0 == "ERR:ValueError")
+                 or (seqkind.startswith("generic") and r0 == "ERR:TypeError"
+                     and (wrapper in ("clustalo", "muscle5", "tantan") or int(seqkind[7:] or 3) > len(PROTEIN_LETTERS))))
+        if not legit:
+            v.append((f"C20/construct/valid-input-rejected/{wrapper}/{r0[4:]}",
+                      f"`{case['ops'][0]}` -> {r0}: nothing in the documented contract refuses this input"))
+    # exceptions a parser may raise on unparsable output (anything else escaping join() is a bug, not a refusal)
+    parse_errors = {"KeyError", "ValueError", "TypeError", "IndexError", "InvalidFileError", "TreeError", "UnicodeDecodeError"}
     documented = {"start": set("ERR:" + e for e in LAUNCH_FAILURE.values()),
                   "join": {"ERR:TimeoutError", "ERR:SubprocessError", "ERR:EvalFailure"},
                   "get_distance_matrix": {"ERR:ValueError"},      # "requires full_matrix_calculation()"
@@ -1911,9 +1984,24 @@ def _oracle(case):
                   "set_guide_tree": {"ERR:ValueError"}}           # invalid arguments (setgap / callbad ops)
     for t in trace[1:]:
         op, res, b, a = t["op"], t["result"], t["before"], t["after"]
-        if res in ("no-app", "unmodelled", "bad-op"):
+        if res in ("no-app", "bad-op"):
             continue
         ww = op.split()
+        if res == "unmodelled":
+            continue          # the model's "diverges": the real call was made (divergence cases) and did block
+        if case.get("kind") == "divergence" and ww[0] == "join" and t is trace[-1] and tool in HANGS and b["st"] == "RUNNING" \
+                and (ww[1] == "-" or (ww[1] == "inf" and wrapper == "base")):
+            v.append((f"C20/join/returned-although-program-never-exits/{wrapper}",
+                      f"`{op}` -> {res} although the program never exits and no timeout applies ({case['ops']})"))
+            break
+        if ww[0] == "call" and ww[1] not in METHODS[wrapper]:
+            if res != "ERR:AttributeError" or a != b:
+                v.append((f"C20/no-such-method/{ww[1]}", f"`{op}` on {wrapper} -> {res} ({case['ops']})"))
+            continue
+        if ww[0] in ("setgap", "callbad") and {"setgap": "set_gap_penalty"}.get(ww[0], ww[-1]) not in METHODS[wrapper]:
+            if res != "ERR:AttributeError" or a != b:
+                v.append((f"C20/no-such-method/{ww[0]}", f"`{op}` on {wrapper} -> {res} ({case['ops']})"))
+            continue
         if res == "hang-join":
             key = {"0": "C20/join/timeout-zero-does-not-time-out", "0.0": "C20/join/timeout-zero-does-not-time-out",
                    "t": "C20/join/timeout-does-not-time-out", "5": "C20/join/timeout-does-not-time-out",
@@ -1923,6 +2011,14 @@ def _oracle(case):
         name = {"start": "start", "join": "join", "cancel": "cancel", "state": "get_app_state", "setgap": "set_gap_penalty"}.get(ww[0])
         if ww[0] in ("call", "callbad"):
             name = ww[1]
+        if ww[0] == "join" and res == "ERR:OverflowError":
+            # documented only in so far as `timeout` is "a float": inf cannot be honoured by communicate(); a refusal must be clean
+            if not (ww[1] == "inf" and wrapper != "base" and b["st"] == "RUNNING"):
+                v.append((f"C20/join/overflow-error/{ww[1]}@{b['st']}", f"`{op}` raised OverflowError ({case['ops']})"))
+            if t["extra"].get("attrs_changed") or a != b:
+                v.append((f"C20/rejected-call-side-effect/join/{'+'.join(t['extra'].get('attrs_changed') or ['resources'])}",
+                          f"`{op}` was refused with OverflowError but changed something ({case['ops']})"))
+            continue
         if ww[0] in ("call", "callbad", "setgap") and res.startswith("ERR:"):
             # a rejected call (state guard, argument validation, missing result) must not change anything the wrapper stores
             ch = t["extra"].get("attrs_changed") or []
@@ -1969,20 +2065,24 @@ def _oracle(case):
                     v.append(("C20/result/alignment-differs-from-tool-output", f"{res} expected {exp}; tool rows {t['extra'].get('tool_rows')}"))
             if name == "get_alignment_order" and res.startswith("ok"):
                 rows = t["extra"].get("tool_rows") or []
-                exp = "ok " + ",".join(h for h, _ in rows)
+                exp = "ok " + ",".join(dict.fromkeys(h for h, _ in rows))      # one entry per header (first position)
                 if res != exp:
                     v.append(("C20/result/order-differs-from-tool-output", f"{res} expected {exp}"))
             if (name == "join" and res == "ok" and wrapper in ("clustalo", "muscle3", "muscle5", "mafft")
-                    and tool in ("garbage_empty", "garbage_missing", "garbage_ragged", "garbage_length", "garbage_swap")):
+                    and tool in ("garbage_empty", "garbage_missing", "garbage_ragged", "garbage_length", "garbage_swap",
+                                 "garbage_extra", "garbage_header")):
                 v.append((f"C20/result/garbage-accepted/{tool}", f"join() succeeded although the program's output was {tool} ({case['ops']})"))
             if (name == "join" and not refused and ww[1] in ("-", "5") and res == "ERR:TimeoutError"
                     and tool not in HANGS and (ww[1] == "-" or t["extra"].get("released_before"))):
                 v.append((f"C20/join/good-run-timed-out/{tool}",
                           f"`{op}` raised TimeoutError and cancelled the run although the program was free to finish ({case['ops']})"))
-            if name == "join" and not refused and res in ("ERR:EvalFailure", "ERR:SubprocessError") and tool in ("ok", "reorder", "bigout"):
+            if name == "join" and not refused and res in ("ERR:EvalFailure", "ERR:SubprocessError") and tool in ("ok", "reorder", "bigout"):     # (dup_records: accepting or refusing duplicates are both defensible)
                 v.append((f"C20/result/valid-output-rejected/{wrapper}",
                           f"join() raised {res[4:]} although the program exited with 0 and wrote complete, valid output "
                           f"({nseq} sequences) ({case['ops']})"))
+            if name == "join" and res == "ERR:EvalFailure" and (t["extra"].get("exc") or "ValueError") not in parse_errors:
+                v.append((f"C20/join/unexpected-exception/{t['extra'].get('exc')}",
+                          f"`{op}` raised {t['extra'].get('exc')}: not an error a parser raises on bad output ({case['ops']})"))
             if name == "join" and res == "ok" and tool in FAILING_EXIT:
                 v.append((f"C20/result/failing-exit-accepted/{tool}",
                           f"join() succeeded although the program ended with a failing exit status ({tool}) ({case['ops']})"))
@@ -2062,7 +2162,7 @@ def _sanitize(new_line, ops):
     """`join -` on a running program that never exits would block: use the timeout form in `hang` environments."""
     tool = new_line.split()[2]
     if tool in HANGS:
-        ops = ["join t" if o == "join -" else o for o in ops]
+        ops = ["join t" if (o == "join -" or (o == "join inf" and new_line.split()[1] == "base")) else o for o in ops]
     if tool == "bigout":
         # once the gate is open a short timeout would race with the program draining its output: use the generous one
         out, ticked = [], False
@@ -2092,6 +2192,8 @@ def _random_history(rng, wrapper, maxlen):
 
 
 def _mk(new_line, ops, kind):
+    if kind == "divergence":      # the only cases in which a join() that must block is really called (as the last op)
+        return {"kind": kind, "ops": [new_line] + list(ops)}
     return {"kind": kind, "ops": [new_line] + _sanitize(new_line, ops)}
 
 
@@ -2207,6 +2309,34 @@ def cases(rng, tier):
         for combo in combos:
             ops = [c if c.startswith("setgap") else "call " + c for c in combo]
             add(_mk(f"new {wrapper} {tool} {n} prot", ops + ["start", "tick", "join -"] + getters, "setter-interplay"))
+    # ---- audit 6: regions the model / generator used to abstain from
+    # (1) a join() that must block is really called: program never exits, no (effective) timeout
+    for wrapper in (("base", "local", "clustalo") if quick else WRAPPERS):
+        for tool in HANGS:
+            add(_mk(f"new {wrapper} {tool} 2 prot", ["start", "join -"], "divergence"))
+    add(_mk("new base hang 2 prot", ["start", "tick", "join inf"], "divergence"))
+    # (2) timeouts outside "a small positive number": negative (expired), inf (refused by communicate / never for the poll loop)
+    for wrapper in (("base", "local", "mafft") if quick else WRAPPERS):
+        for z in ("-1", "inf"):
+            add(_mk(f"new {wrapper} ok 3 prot", ["start", f"join {z}", "state", "cancel"], "odd-timeouts"))
+            add(_mk(f"new {wrapper} reorder 3 prot", ["start", "tick", f"join {z}", "join -"], "odd-timeouts"))
+            add(_mk(f"new {wrapper} exit3 3 prot", ["start", "tick", "state", f"join {z}"], "odd-timeouts"))
+    # (3) records of the output that are not a permutation of the inputs: duplicates (accepted: dict semantics), one too many,
+    #     a header that is no index (both refused)
+    for wrapper in ("clustalo", "muscle3", "muscle5", "mafft"):
+        for tool in ("dup_records", "garbage_extra", "garbage_header"):
+            add(_mk(f"new {wrapper} {tool} 3 prot", ["start", "tick", "join -", "call get_alignment", "call get_alignment_order"], "odd-records"))
+    # (4) sequences outside "3 to 6 symbols": an empty one, very long ones; a protein matrix (TantanApp then owns a second temp file)
+    for wrapper in ("clustalo", "muscle3", "muscle5", "mafft", "tantan"):
+        for kind in ("protempty", "protlong", "protmat"):
+            tail = ["call get_alignment", "call get_alignment_order"] if wrapper != "tantan" else ["call get_mask"]
+            add(_mk(f"new {wrapper} {'reorder' if kind != 'protmat' else 'ok'} 3 {kind}", ["start", "tick", "join -"] + tail, "odd-sequences"))
+    add(_mk("new tantan exit3 3 protmat", ["start", "join -"], "odd-sequences"))
+    add(_mk("new tantan hang 3 protmat", ["start", "cancel"], "odd-sequences"))
+    # (5) calls of methods a wrapper does not have (the model's `noMethod`)
+    add(_mk("new local ok 2 prot", ["call get_alignment", "start", "call get_guide_tree"], "no-such-method"))
+    add(_mk("new mafft ok 3 prot", ["setgap -1", "callbad set_guide_tree", "call use_super5", "start", "join -", "call get_mask"], "no-such-method"))
+    add(_mk("new tantan ok 3 prot", ["call get_alignment_order", "start"], "no-such-method"))
     # corrupted output whose per-row symbol-count errors cancel
     for wrapper in ("clustalo", "muscle3", "muscle5", "mafft"):
         add(_mk(f"new {wrapper} garbage_swap {3 if wrapper != 'mafft' else 4} prot", ["start", "tick", "join -", "call get_alignment"], "garbage-swap"))
